@@ -352,3 +352,27 @@ def partial_cube_check(width_max):
         return dict(records=[], stats=dict(), functions={}, bounded=dict(
             evaluations=n, exhaustive=True, failures=fails, window=f'words up to {width_max} bits, all partial cubes'))
     return run
+
+
+def h_support_lookalike_int(ctx):
+    """An integer whose NAME equals a bit name of another integer (declared in a
+    separate call: legal, no bit is shared): support, quantification and
+    substitution keep the two apart."""
+    w = ctx.w
+    c = w.aut
+    first = list(w.shape.sys)[0]                  # e.g. `a`, already declared
+    bit0 = c.vars[first]['bitnames'][0]           # e.g. `a_0`
+    c.declare(**{bit0: ctx.p['hint']})            # integer named like that bit
+    a_bits = list(c.vars[first]['bitnames'])
+    o_bits = list(c.vars[bit0]['bitnames'])
+    sup = ctx.fn(fol.Context.support)
+    ex = ctx.fn(fol.Context.exist)
+    for tag, bits, want in (('first', a_bits, {first}), ('second', o_bits, {bit0}), ('both', a_bits + o_bits, {first, bit0})):
+        u = w.pred(f'Ul_{tag}', bits)
+        got = set(ctx.call(sup, c, u, label='support'))
+        w.oblige(f'support of a predicate over the bits of {sorted(want)} reports identifiers among {sorted(want)} only (an integer named like a bit of another integer)',
+                 z3.BoolVal(got <= want))
+        r = ctx.call(ex, c, {first}, u, label='exist')
+        w.oblige(f'exist({first}) quantifies the bits of {first} only ({tag})',
+                 spec.equiv(w, w.term(r), spec.exists(w.zs(a_bits), w.term(u))))
+    w.canary('lookalike canary', z3.BoolVal(False))
